@@ -676,11 +676,20 @@ def c09(prop, tier, replay):
     cases = frag_cases(mcs, "fr") + frag_cases(mcs2, "frtrex") + frag_cases(mcs3, "frmix") + frag_cases(mcs4, "frmf") + frag_cases(mcs5, "frx")
     # a media segment that does not start at position 0 of its stream (moof-relative addressing only:
     # explicit base offsets are absolute positions of the rendered file)
+    # movie fragment boxes with 64-bit size headers (the moof-relative base is the start of the box)
+    stl, lay = gen_mc("MC_Layout", "MC_Layout_frag1", wd, tier, coverage=False)
+    for i, c in enumerate([c for c in lay if len(c["ops"]) == 1 and c["ops"][0]["op"] == "large"]):
+        cases.append({"id": "frlarge-%d" % i, "prop": "C09", "file": c["file"], "expect_ok": True,
+                      "info": {"delivery": "one", "base": "layout", "durMode": "-", "ctsMode": "-", "tfdtV": 0, "nfrag": 2, "ntracks": 1, "mdatFirst": False}})
+    stl2, lay2 = gen_mc("MC_Layout", "MC_Layout_fragsplit1", wd, tier, coverage=False)
+    for i, c in enumerate([c for c in lay2 if len(c["ops"]) == 1 and c["ops"][0]["op"] == "large"]):
+        cases.append({"id": "frlarges-%d" % i, "prop": "C09", "file": c["file"], "init": c["init"], "expect_ok": True,
+                      "info": {"delivery": "split", "base": "layout", "durMode": "-", "ctsMode": "-", "tfdtV": 0, "nfrag": 2, "ntracks": 1, "mdatFirst": False}})
     shifted = [dict(c, id=c["id"] + "-at", seg_pos=big(rng.choice([1, 8, 1000, 4096]))) for c in cases
                if c.get("init") and c["info"]["base"] in ("moof", "none")]
     cases += shifted[:: (4 if tier == "quick" else 1)]
     res = validate_sharded("Trace_Read", cases, wd, "frag", 6 if tier == "quick" else 16, runner="read-run")
-    report_read(prop, tier, res, cases, [sta, st, st2, st3, st4, st5], t0, known, "model_checking",
+    report_read(prop, tier, res, cases, [sta, st, st2, st3, st4, st5, stl, stl2], t0, known, "model_checking",
                 "fragmented movies: fragment structures (1-3 fragments, 1-2 tracks, empty runs, late tracks) x 6 base-offset modes x "
                 "3 duration modes (+ 3 modes that change the source from fragment to fragment) x 3 composition-offset modes x 32/64-bit tfdt x "
                 "movie-level defaults x media data after / before the moof x 2 deliveries, rendered by the "
@@ -1325,7 +1334,7 @@ def robust_suite(tier):
     with ThreadPoolExecutor(max_workers=12) as ex:
         rs = list(ex.map(lambda j: run_robust_base(j[0], j[1], wd, j[2]), jobs))
     # amplification family: T tracks whose parameter-set records all reach into one shared region
-    amps = ["90,30,hevc", "90,30,avc", "30,60,hevc", "12,254,avc", "40,300,esds", "100,64,esds", "40,300,esds4", "20000,400000,fragwalk"] + (["90,200,hevc", "90,200,avc", "90,2000,esds", "60000,600000,fragwalk"] if tier == "thorough" else [])
+    amps = ["90,30,hevc", "90,30,avc", "30,60,hevc", "12,254,avc", "40,300,esds", "100,64,esds", "40,300,esds4", "20000,400000,fragwalk"] + ["80,200,tbl-" + t for t in ("stss", "stts", "ctts", "stsc", "stco", "co64", "stsz")] + (["90,200,hevc", "90,200,avc", "90,2000,esds", "60000,600000,fragwalk"] if tier == "thorough" else [])
     rs += [run_amplify(a, wd, p) for p in ("debug", "release") for a in amps]
     res = {"stats": stats, "bases": [{"kind": b["kind"], "len": len(b["file"]), "fields": len(b["fields"]), "plan": {k: v for k, v in b["plan"].items()}} for b in bases],
            "executions": sum(x["cases"] for x in rs), "events": sum(x["events"] for x in rs), "fails": [], "wall": time.time() - t0}
